@@ -326,10 +326,30 @@ def run_cases(ctx):
     for fn, c in core.corpus_cases('C19'):
         cases.insert(0, c)
     befores, outs, exprs = [], [], []
-    for c in cases:
+    for ci, c in enumerate(cases):
         meta = build_case(c, ctx.rng)
+        # residues of the given strand that carry flags / attributes set after the molecule was made (residues that already
+        # exist and are not to be built, labels): "the original strand unchanged" covers every attribute
+        if ci % 3 == 0:
+            for k in meta.nodes:
+                if ctx.rng.random() < 0.5:
+                    meta.nodes[k]['build'] = False
+                if ctx.rng.random() < 0.5:
+                    meta.nodes[k]['backmap'] = False
+                if ctx.rng.random() < 0.3:
+                    meta.nodes[k]['chiral'] = 'R'
+        attrs_before = {int(k): {str(a): repr(v) for a, v in meta.nodes[k].items() if a != 'graph'} for k in meta.nodes}
         before = snapshot(meta)
         out = run_impl(meta)
+        if not isinstance(out, str):
+            for k, want in attrs_before.items():
+                got = {str(a): repr(v) for a, v in meta.nodes[k].items() if a != 'graph'} if k in meta.nodes else None
+                if got != want:
+                    diff = sorted(a for a in set(want) | set(got or {}) if (got or {}).get(a) != want.get(a))
+                    ctx.violation('spec', f"C19 fails on the implementation: residue {k} of the given strand had attributes "
+                                  f"{ {a: want.get(a) for a in diff} }, after completion {None if got is None else {a: got.get(a) for a in diff} }",
+                                  {'case': c, 'before': before, 'failure': f'attributes {diff} of original residue {k} changed', 'flags': ci % 3 == 0})
+                    break
         befores.append(before)
         outs.append(out)
         exprs.append(f"run {coq_graph(before)} {lit([n for _, _, n in before['nodes']])}")
